@@ -636,7 +636,7 @@ def gen_locations(ctx, rnd, triples, pinned, n):
 
 def jobs(tier, seed):
     thorough = tier == "thorough"
-    nsets = 210 if thorough else 28
+    nsets = 840 if thorough else 28
     chunk = 7 if thorough else 14
     J = []
     fids = []
